@@ -1020,7 +1020,7 @@ fn gen_sym_module(rng: &mut Rng) -> (ModuleSpec, Vec<u32>) {
 }
 
 /// fixtures with debug info: (path under fixtures/, debugName)
-const FIXTURES: [(&str, &str); 13] = [
+const FIXTURES: [(&str, &str); 14] = [
     ("other/example-linux", "example-linux"),
     ("other/example-linux-fallback", "example-linux-fallback"),
     ("other/simple-example/out/with-dwo/main", "main"),
@@ -1034,6 +1034,9 @@ const FIXTURES: [(&str, &str); 13] = [
     ("android32-local/libsoftokn3.so", "libsoftokn3.so"),
     ("win64-ci/softokn3.pdb", "softokn3.pdb"),
     ("win64-ci/WriteArgument.pdb", "WriteArgument.pdb"),
+    // <verif>/corpus/C09/fixtures/rustdemo: freestanding Rust ELF, DWARF with /rustc/<rev>/library/… and
+    // cargo-registry file names (the only way into path_mapper.rs)
+    ("corpus:rustdemo", "rustdemo"),
 ];
 
 struct FixtureInfo {
@@ -1069,7 +1072,9 @@ fn fixtures() -> &'static Vec<FixtureInfo> {
                     if i % step != 0 {
                         continue;
                     }
-                    for d in [0u32, 4, 9, 20, 37] {
+                    // small symbol tables are scanned densely
+                    let deltas: Vec<u32> = if syms.len() < 40 { (0..240).step_by(3).collect() } else { vec![0, 4, 9, 20, 37] };
+                    for d in deltas {
                         let o = s.wrapping_add(d);
                         match map.lookup(LookupAddress::Relative(o)).await {
                             Some(ai) => match ai.frames {
@@ -1244,7 +1249,9 @@ fn gen_helper_cfg(rng: &mut Rng, m: &ModuleSpec) -> HelperCfg {
                 .collect()
         }
     };
-    let aux = !(matches!(m.kind, ModuleKind::File(_)) && rng.chance(1, 6));
+    // fixtures whose frames live in dwo / dwp / .o files: those are absent in a third of the cases
+    let has_aux = matches!(&m.kind, ModuleKind::File(rel) if rel.contains("dwo") || rel.contains("dwp") || rel.contains("oso"));
+    let aux = !(matches!(m.kind, ModuleKind::File(_)) && rng.chance(1, if has_aux { 3 } else { 8 }));
     HelperCfg { direct: false, cands, policy, aux }
 }
 
